@@ -2730,6 +2730,12 @@ func (r *Runtime) getIterator(obj Value, method func(FunctionCall) Value) *itera
 			next = call
 		}
 	}
+	if next == nil {
+		// GetIterator does not check the method; calling a missing / non-callable next is a TypeError
+		next = func(FunctionCall) Value {
+			panic(r.NewTypeError("iterator.next is not a function"))
+		}
+	}
 
 	return &iteratorRecord{
 		iterator: iter,
